@@ -316,7 +316,8 @@ func corrActions(seed uint64, n int, tier string, out string, replay string) {
 	m := StartModel()
 	defer m.Close()
 	rep := NewReport("C01", "actions", seed, "case = history of 3-8 install/upgrade/rollback/uninstall operations on one release name with random flags (replace, atomic, cleanup-on-fail, keep-history, max-history, no-hooks, dry-run, rollback target) and a fault plan per operation (each cluster phase and each storage write: ok / fail / crash = process death with everything frozen), run through the real action package over the Secret, ConfigMap or memory driver and the simulated API server; after every operation the stored ledger (revision, status, chart), the outcome and the sequence of storage writes are compared with the Lean ledger model, and the ledger invariants are monitored on the implementation's records; non-trivial = history with at least 3 operations that changed the ledger; distinct = hash of the history")
-	for i := 0; i < n; i++ {
+	for _, id := range caseSeq("actions", seed, n) {
+		i, seed := id.Index, id.Seed
 		r := NewRng(seed, uint64(i))
 		faultLevel := []int{0, 1, 1, 2}[i%4]
 		backend := []string{"secrets", "configmaps", "memory"}[i%3]
